@@ -1,2 +1,386 @@
-(* Props/C15.v — placeholder while the pipeline is brought up; replaced by the theorem statements. *)
-Require Import Hdl21.Base.PyInt Hdl21.Spec.PdkSpec Hdl21.Model.PdkSelect Hdl21.Model.Walker Hdl21.Model.PdkRegistry.
+(* Props/C15.v — PDK compilation swaps device targets and nothing else.
+   Only statements, each closed by lemmas of Proofs/C15Proofs.v, followed by Print Assumptions.
+
+   Objects:  `compile k st m` (Model/Walker.v) = <pdk k>.compile(m) with walker/cache state st;  `mrel k P m m'`
+   (Spec/C15Swap.v) = "m' is m with only instance targets of mapped generic primitives replaced, by calls allowed by P";
+   `conv_g k g prm` (Model/PdkSelect.v) = the device call a walker builds for a request;  `sel_entry` = the table
+   entry it selects;  `satisfies`, `candidates`, `default_size` (Spec/PdkSpec.v) = the specification of selection;
+   `table k g` = the REGENERATED device tables (Hdl21Gen.PdkTables_<pdk>);  `rstep`/`rrun` (Model/PdkRegistry.v) = hdl21.pdk.
+
+   General theorems (1-4) hold for every design / state / history (induction).  Table-driven theorems (5-10) hold
+   for every request (all parameter values) and every entry of the tables as they are in the source today: the
+   per-entry facts are checked by vm_compute over the regenerated tables and lifted with forallb_forall. *)
+From Coq Require Import String Ascii.
+Require Import Hdl21.Base.PyInt Hdl21.Spec.PdkSpec Hdl21.Model.PdkSelect Hdl21.Model.Walker Hdl21.Model.PdkRegistry
+               Hdl21.Spec.C15Swap Hdl21.Proofs.C15Proofs.
+Require Import Hdl21Gen.PrimitivePorts Hdl21Gen.PdkTables_sample Hdl21Gen.PdkTables_sky130
+               Hdl21Gen.PdkTables_gf180 Hdl21Gen.PdkTables_asap7.
+Open Scope string_scope.
+Open Scope list_scope.
+Open Scope Z_scope.
+
+(* ================================================================ 1. only Instance.of is rewritten *)
+(* module names, instance order, instance names, connections, sub-module structure, unmapped primitives and
+   external-module calls are as they were; every mapped primitive became the device call cached for its
+   (group, parameters) key — for EVERY design, at any depth, with any sharing, from any walker state *)
+Theorem C15_walker_only_of k st m m' st' : compile k st m = SOk (m', st') -> mrel k (in_cache (cache st')) m m'.
+Proof. intros H. apply (compile_rel k st m m' st' H). Qed.
+Print Assumptions C15_walker_only_of.
+
+(* read off the relation: instance names and connections of all instances at all depths, in traversal order *)
+Theorem C15_names_conns_kept k st m m' st' : compile k st m = SOk (m', st') ->
+  names_conns (insts_m m) = names_conns (insts_m m').
+Proof. intros H. apply (proj1 (proj2 (rel_names_conns k _)) _ _ (C15_walker_only_of _ _ _ _ _ H)). Qed.
+Print Assumptions C15_names_conns_kept.
+
+(* the replacing call is the one the selection function builds for the request (cache entries included),
+   provided the cache the compilation starts from was itself filled by compilations *)
+Theorem C15_device_is_selected k st m m' st' : compile k st m = SOk (m', st') -> cache_ok k (cache (start_state k st)) ->
+  mrel k (fun key c => conv_g k (fst key) (snd key) = SOk (c_spec c)) m m' /\ cache_ok k (cache st').
+Proof.
+  intros H C. destruct (compile_rel k st m m' st' H) as [R [_ OK]]. specialize (OK C). split; [|exact OK].
+  assert (HPQ : forall key c, in_cache (cache st') key c -> conv_g k (fst key) (snd key) = SOk (c_spec c))
+    by (intros [g prm] c L; apply (OK g prm c L)).
+  exact (proj1 (proj2 (rel_mono k _ _ HPQ)) _ _ R).
+Qed.
+Print Assumptions C15_device_is_selected.
+
+Theorem C15_fresh_cache_ok k : cache_ok k (cache (start_state k st0)).
+Proof. unfold start_state. destruct (global_cache k); apply cache_ok_nil. Qed.
+Print Assumptions C15_fresh_cache_ok.
+
+(* ================================================================ 2. equal primitive parameters give the same device call *)
+Theorem C15_cache_same_call k st m m' st' key c1 c2 : compile k st m = SOk (m', st') ->
+  In (key, c1) (swaps_m k m m') -> In (key, c2) (swaps_m k m m') -> c1 = c2.
+Proof.
+  intros H I1 I2. pose proof (C15_walker_only_of _ _ _ _ _ H) as R.
+  pose proof (proj1 (proj2 (swaps_rel k _)) _ _ R _ _ I1) as L1. pose proof (proj1 (proj2 (swaps_rel k _)) _ _ R _ _ I2) as L2.
+  unfold in_cache in *. congruence.
+Qed.
+Print Assumptions C15_cache_same_call.
+
+(* Sky130 / GF180 keep the cache at module scope: the same call also across compilations *)
+Theorem C15_cache_same_call_across k st m1 m1' st1 m2 m2' st2 key c1 c2 : global_cache k = true ->
+  compile k st m1 = SOk (m1', st1) -> compile k st1 m2 = SOk (m2', st2) ->
+  In (key, c1) (swaps_m k m1 m1') -> In (key, c2) (swaps_m k m2 m2') -> c1 = c2.
+Proof.
+  intros G H1 H2 I1 I2.
+  pose proof (proj1 (proj2 (swaps_rel k _)) _ _ (C15_walker_only_of _ _ _ _ _ H1) _ _ I1) as L1.
+  pose proof (proj1 (proj2 (swaps_rel k _)) _ _ (C15_walker_only_of _ _ _ _ _ H2) _ _ I2) as L2.
+  destruct (compile_rel _ _ _ _ _ H2) as [_ [E _]]. unfold start_state in E. rewrite G in E.
+  unfold in_cache in *. apply E in L1. congruence.
+Qed.
+Print Assumptions C15_cache_same_call_across.
+
+(* ================================================================ 3. compiling twice equals compiling once *)
+Theorem C15_compile_idempotent k st m m' st' : compile k st m = SOk (m', st') ->
+  ng_m k m' = true /\ forall st2, compile k st2 m' = SOk (m', start_state k st2).
+Proof.
+  intros H. pose proof (proj1 (proj2 (rel_ng k _)) _ _ (C15_walker_only_of _ _ _ _ _ H)) as N. split; [exact N|].
+  intros st2. unfold compile. fold (start_state k st2). apply (proj1 (proj2 (visit_ng k))). exact N.
+Qed.
+Print Assumptions C15_compile_idempotent.
+
+(* ================================================================ 4. the registry: by default / by name / by module *)
+Definition rstate (info : minfo) (ops : list rop) : rst := snd (rrun info r0 ops).
+
+Theorem C15_registry_invariant info ops : rinv2 info (rstate info ops).
+Proof. apply rrun_inv. apply rinv2_r0. Qed.
+Print Assumptions C15_registry_invariant.
+
+(* after ANY history: compile(src, pdk=module) is accepted for every registered or valid module and runs that module *)
+Theorem C15_registry_by_module info ops m : let st := rstate info ops in
+  inb m (r_mods st) = true \/ snd (info m) = true ->
+  exists st', rstep info st (OCompileMod m) = (ROk (Some m), st') /\ inb m (r_mods st') = true /\
+              (inb m (r_mods st) = true -> st' = st).
+Proof.
+  intros st H. destruct (compile_by_module info st m (C15_registry_invariant info ops) H) as [st' [A [_ [B C]]]]. eauto.
+Qed.
+Print Assumptions C15_registry_by_module.
+
+(* compile(src, pdk=name) runs a registered module of that name, for the name of every registered module *)
+Theorem C15_registry_by_name info ops m : let st := rstate info ops in inb m (r_mods st) = true ->
+  exists m', rstep info st (OCompileName (fst (info m))) = (ROk (Some m'), st) /\ fst (info m') = fst (info m) /\
+             inb m' (r_mods st) = true.
+Proof. intros st. apply compile_by_name. apply C15_registry_invariant. Qed.
+Print Assumptions C15_registry_by_name.
+
+(* compile(src) runs the default: the explicitly set one, else the only registered one; else it is rejected *)
+Theorem C15_registry_by_default info ops : let st := rstate info ops in
+  match default st with
+  | Some m => rstep info st OCompileDefault = (ROk (Some m), st) /\ inb m (r_mods st) = true
+  | None => rstep info st OCompileDefault = (RRej, st) /\ r_default st = None /\ List.length (r_mods st) <> 1%nat
+  end.
+Proof. intros st. apply compile_by_default. apply C15_registry_invariant. Qed.
+Print Assumptions C15_registry_by_default.
+
+(* one registered PDK: the three forms reach it and leave the registry as it is *)
+Theorem C15_registry ops info m : let st := rstate info ops in r_mods st = [m] ->
+  rstep info st OCompileDefault = (ROk (Some m), st) /\
+  rstep info st (OCompileName (fst (info m))) = (ROk (Some m), st) /\
+  rstep info st (OCompileMod m) = (ROk (Some m), st).
+Proof. intros st. apply compile_same_pdk. apply C15_registry_invariant. Qed.
+Print Assumptions C15_registry.
+
+(* several registered PDKs and an explicit default *)
+Theorem C15_registry_explicit_default ops info m : let st := rstate info ops in r_default st = Some m ->
+  rstep info st OCompileDefault = (ROk (Some m), st) /\ rstep info st (OCompileMod m) = (ROk (Some m), st).
+Proof. intros st. apply compile_explicit_default. apply C15_registry_invariant. Qed.
+Print Assumptions C15_registry_explicit_default.
+
+(* ================================================================ 5. selection is sound and complete w.r.t. the specification *)
+(* the device of every built call is a table entry of the PDK that SATISFIES the request (Spec/PdkSpec.v) *)
+Theorem C15_select_sound k g prm d f : conv_g k g prm = SOk (d, f) -> (k = Sample -> mem (pm_tp prm) mos_types = true) ->
+  exists e, In e (table k g) /\ snd e = d /\ satisfies k g prm e = true.
+Proof.
+  intros H HS. destruct (conv_sel _ _ _ _ H) as [e [S E]]. destruct (sel_sound _ _ _ _ S HS) as [A B].
+  exists e. cbn [fst] in E. auto.
+Qed.
+Print Assumptions C15_select_sound.
+
+(* the statement of DESIGN 6.14: selection by (type, family, threshold) returns a device whose key holds all three *)
+Theorem C15_select_sound_triple k prm d f : by_name_pdk k = true -> pm_model prm = None -> conv_g k GMos prm = SOk (d, f) ->
+  exists e, In e (table k GMos) /\ snd e = d /\
+            In (pm_tp prm) (fst e) /\ In (pm_fam prm) (fst e) /\ In (pm_vth prm) (fst e).
+Proof.
+  intros K M H. destruct (C15_select_sound k GMos prm d f H) as [e [A [B C]]]; [destruct k; discriminate|].
+  exists e. split; [exact A|]. split; [exact B|]. destruct k; try discriminate K; cbn [satisfies] in C; rewrite M in C;
+    apply andb_true_iff in C; destruct C as [C C3]; apply andb_true_iff in C; destruct C as [C1 C2];
+    rewrite <- !mem_In; auto.
+Qed.
+Print Assumptions C15_select_sound_triple.
+
+(* conversely: no satisfying entry => the descriptive "No ... module" error; exactly one => that entry;
+   several => the first in table order (GF180 by triple: the descriptive "not well-defined" error) *)
+Theorem C15_select_complete k g prm : k <> Sample -> (exists p, group_of k p = Some g) ->
+  match candidates k g prm with
+  | [] => sel_entry k g prm = SErr ENoDevice
+  | [e] => sel_entry k g prm = SOk e
+  | e :: _ :: _ =>
+      match k, g, pm_model prm with
+      | Gf180, GMos, None => sel_entry k g prm = SErr EAmbiguous
+      | _, _, _ => sel_entry k g prm = SOk e
+      end
+  end.
+Proof. apply sel_complete. Qed.
+Print Assumptions C15_select_complete.
+
+(* ================================================================ 6. a device call or a descriptive error — never an escaping lookup failure *)
+(* for every mapped primitive and ALL parameter values allowed by the primitives' parameter classes: the outcome is
+   a call on a table entry, or one of the raised errors (ENoDevice, EAmbiguous, EBadParam) — EEscape (KeyError of a
+   default table, StopIteration, unbound modparams, TypeError of a parameter-class mismatch) is unreachable *)
+Theorem C15_select_or_error k p g prm : group_of k p = Some g -> prm_wf k g prm = true ->
+  match conv_g k g prm with
+  | SOk (d, _) => exists e, sel_entry k g prm = SOk e /\ In e (table k g) /\ snd e = d
+  | SErr x => x <> EEscape
+  end.
+Proof.
+  intros G WF. destruct (sel_entry k g prm) as [e|x] eqn:S.
+  - pose proof (sel_in _ _ _ _ S) as I.
+    destruct (conv_total k g prm e S (entries_ok k g e I) WF) as [[f C]|C]; rewrite C; [eauto|discriminate].
+  - rewrite (conv_sel_err k g prm x (ex_intro _ p G) S).
+    destruct (sel_err_desc k g prm x S (group_of_mapped _ _ _ G)) as [E|E]; rewrite E; discriminate.
+Qed.
+Print Assumptions C15_select_or_error.
+
+(* prm_wf demands NUMERIC diode sizes, and it must: DiodeParams allows Literal sizes, and for those both walkers
+   multiply two Literals — an escaping TypeError (recorded findings C15:escape:<pdk>:Diode:<model>:literal).
+   The statement with the weaker hypothesis "every size is absent, a number or a Literal" is refuted: *)
+Definition lit_diode (m : string) : pparams :=
+  {| pm_model := Some m; pm_tp := ""; pm_fam := ""; pm_vth := ""; pm_w := Some (PLit "a"); pm_l := Some (PLit "b");
+     pm_nf := None; pm_mult := None |}.
+Theorem C15_select_or_error_literal_diode_refuted :
+  ~ (forall k p g prm, group_of k p = Some g -> scalar_ok (pm_w prm) = true -> scalar_ok (pm_l prm) = true ->
+                       conv_g k g prm <> SErr EEscape).
+Proof. intros H. apply (H Sky130 Diode GDiode (lit_diode "PWND_5p5V")); vm_compute; reflexivity. Qed.
+Print Assumptions C15_select_or_error_literal_diode_refuted.
+
+Theorem C15_literal_diode_witnesses :
+  conv_g Sky130 GDiode (lit_diode "PWND_5p5V") = SErr EEscape /\ conv_g Gf180 GDiode (lit_diode "ND2PS_3p3V") = SErr EEscape.
+Proof. vm_compute. split; reflexivity. Qed.
+Print Assumptions C15_literal_diode_witnesses.
+
+(* selection succeeds => the call is built, unless a parameter VALUE is rejected (ValueError: non-positive size in the
+   sample PDK, non-integral multiplier of a Sky130 capacitor / bipolar) *)
+Theorem C15_selected_is_built k g prm e : sel_entry k g prm = SOk e -> prm_wf k g prm = true ->
+  (exists f, conv_g k g prm = SOk (snd e, f)) \/ conv_g k g prm = SErr EBadParam.
+Proof. intros S WF. apply conv_total; [exact S| |exact WF]. apply entries_ok. apply (sel_in _ _ _ _ S). Qed.
+Print Assumptions C15_selected_is_built.
+
+(* ================================================================ 7. every model name of every key selects its entry *)
+Theorem C15_model_name_total k g e m prm : by_name_pdk k = true -> In e (table k g) -> In m (key_names (fst e)) ->
+  pm_model prm = Some m -> sel_entry k g prm = SOk e.
+Proof. apply model_name_total. Qed.
+Print Assumptions C15_model_name_total.
+
+(* and every Sky130 / GF180 device has a model name: every entry of every table is reachable *)
+Theorem C15_every_device_reachable k g e : by_name_pdk k = true -> In e (table k g) ->
+  exists m, In m (key_names (fst e)) /\ forall prm, pm_model prm = Some m -> sel_entry k g prm = SOk e.
+Proof.
+  intros K I. destruct (model_name_exists k g e K I) as [m M]. exists m. split; [exact M|].
+  intros prm H. apply (model_name_total k g e m prm K I M H).
+Qed.
+Print Assumptions C15_every_device_reachable.
+
+(* ================================================================ 8. ports *)
+(* The EXACT lists of (PDK, primitive, model) whose device does not have the primitive's port list.
+   ports_unconnected: the device has a terminal the primitive lacks — the instance is left with an unconnected port
+     and cannot be netlisted (recorded in tools/findings/C15.json):
+     (a) devices with a terminal no generic primitive has (keys C15:ports:<pdk>:<primitive>:<model>);
+     (b) the resistor / capacitor tables are shared by the two- and the three-terminal primitive: a three-terminal
+         model requested through the two-terminal primitive leaves `b` unconnected (keys C15:arity:<pdk>:<primitive>).
+   ports_dangling: a two-terminal model requested through the three-terminal primitive — every device port is still
+     connected exactly once; the primitive's connection to `b` names no device port (the netlisters drop it). *)
+Definition ports_unconnected : list (pdk * prim * list string) :=
+  [ (Sky130, Mos, ["NMOS_ISO_20p0V"]);
+    (Sky130, Bipolar, ["NPN_5p0V_1x2"; "NPN_11p0V_1x1"; "NPN_5p0V_1x1"]);
+    (Gf180, Bipolar, ["NPN_10p0x10p0"; "NPN_5p0x5p0"; "NPN_0p54x16p0"; "NPN_0p54x8p0"; "NPN_0p54x4p0"; "NPN_0p54x2p0"]);
+    (Sky130, PRes, ["GEN_ND"; "GEN_PD"; "GEN_ISO_PW"; "PP_PREC_0p35"; "PP_PREC_0p69"; "PP_PREC_1p41"; "PP_PREC_2p85"; "PP_PREC_5p73";
+                    "PM_PREC_0p35"; "PM_PREC_0p69"; "PM_PREC_1p41"; "PM_PREC_2p85"; "PM_PREC_5p73"]);
+    (Sky130, PCap, ["VAR_LVT"; "VAR_HVT"]);
+    (Gf180, PRes, ["NPLUS_U"; "PPLUS_U"; "NPLUS_S"; "PPLUS_S"; "NWELL"; "NPOLYF_U"; "PPOLYF_U"; "NPOLYF_S"; "PPOLYF_S";
+                   "PPOLYF_U_1K"; "PPOLYF_U_2K"; "PPOLYF_U_1K_6P0"; "PPOLYF_U_2K_6P0"; "PPOLYF_U_3K"]) ].
+
+Definition ports_dangling : list (pdk * prim * list string) :=
+  [ (Sky130, TRes, ["GEN_PO"; "GEN_L1"; "GEN_M1"; "GEN_M2"; "GEN_M3"; "GEN_M4"; "GEN_M5"]);
+    (Sky130, TCap, ["MIM_M3"; "MIM_M4"]);
+    (Gf180, TRes, ["RM1"; "RM2"; "RM3"; "TM6K"; "TM9K"; "TM11K"; "TM30K"]);
+    (Gf180, TCap, ["MIM_1p5fF"; "MIM_1p0fF"; "MIM_2p0fF"; "PMOS_3p3V"; "NMOS_6p0V"; "PMOS_6p0V"; "NMOS_3p3V";
+                   "NMOS_Nwell_3p3V"; "PMOS_Pwell_3p3V"; "NMOS_Nwell_6p0V"; "PMOS_Pwell_6p0V"]) ].
+
+Definition ports_exceptions := ports_unconnected ++ ports_dangling.
+
+(* for every device reachable from primitive p: its ordered port list equals p's EXACTLY WHEN it is not listed *)
+Theorem C15_ports_match k p g e : group_of k p = Some g -> In e (table k g) ->
+  ports_ok p e = negb (is_exc ports_exceptions k p (model_of e)).
+Proof. apply ports_lift. vm_compute. reflexivity. Qed.
+Print Assumptions C15_ports_match.
+
+(* its ports are among p's (so p's connections connect every device port) EXACTLY WHEN it is not in ports_unconnected *)
+Theorem C15_ports_covered k p g e : group_of k p = Some g -> In e (table k g) ->
+  ports_sub p e = negb (is_exc ports_unconnected k p (model_of e)).
+Proof. apply ports_lift. vm_compute. reflexivity. Qed.
+Print Assumptions C15_ports_covered.
+
+(* every listed exception is a model of the table it is listed for *)
+Theorem C15_ports_exceptions_present : exc_present ports_exceptions = true.
+Proof. vm_compute. reflexivity. Qed.
+Print Assumptions C15_ports_exceptions_present.
+
+(* the unrestricted statements are false: the recorded witnesses *)
+Theorem C15_ports_match_refuted :
+  ~ (forall k p g e, group_of k p = Some g -> In e (table k g) -> ports_sub p e = true) /\
+  ~ (forall k p g e, group_of k p = Some g -> In e (table k g) -> ports_ok p e = true).
+Proof.
+  assert (X : existsb (fun e => negb (ports_sub Mos e) && negb (ports_ok Mos e)) (table Sky130 GMos) = true) by (vm_compute; reflexivity).
+  apply existsb_exists in X. destruct X as [e [I N]]. apply andb_true_iff in N. destruct N as [N1 N2].
+  split; intros H; rewrite (H Sky130 Mos GMos e eq_refl I) in *; discriminate.
+Qed.
+Print Assumptions C15_ports_match_refuted.
+
+Theorem C15_ports_witnesses :
+  (exists e, In e (table Sky130 GMos) /\ model_of e = "NMOS_ISO_20p0V" /\ dev_ports (snd e) = ["g"; "d"; "s"; "b"; "sub"]) /\
+  (exists e, In e (table Sky130 GBjt) /\ model_of e = "NPN_5p0V_1x2" /\ dev_ports (snd e) = ["c"; "b"; "e"; "s"]) /\
+  (exists e, In e (table Gf180 GBjt) /\ model_of e = "NPN_5p0x5p0" /\ dev_ports (snd e) = ["c"; "b"; "e"; "s"]) /\
+  (exists e, In e (table Sky130 GRes) /\ model_of e = "GEN_ND" /\ dev_ports (snd e) = ["p"; "n"; "b"]).
+Proof. repeat split; apply witness_lift; vm_compute; reflexivity. Qed.
+Print Assumptions C15_ports_witnesses.
+
+(* consequence: an instance whose connections connect the primitive's ports, compiled to a device not in
+   ports_unconnected, connects every device port (connections are a map: exactly once); if the device is in neither
+   list the connections name exactly the device's ports *)
+Theorem C15_swapped_instance_valid k p g prm d f l conns : group_of k p = Some g -> prim_ports p = Some l ->
+  conv_g k g prm = SOk (d, f) ->
+  exists e, In e (table k g) /\ snd e = d /\
+            (is_exc ports_unconnected k p (model_of e) = false -> ports_connected l conns = true ->
+             ports_connected (dev_ports d) conns = true) /\
+            (is_exc ports_exceptions k p (model_of e) = false -> conns_exact l conns = true ->
+             conns_exact (dev_ports d) conns = true).
+Proof.
+  intros G P H. destruct (conv_sel _ _ _ _ H) as [e [S E]]. cbn [fst] in E. pose proof (sel_in _ _ _ _ S) as I.
+  exists e. split; [exact I|]. split; [auto|]. rewrite E. split; intros X C.
+  - apply (ports_sub_connected p e conns l P); [|exact C]. rewrite (C15_ports_covered k p g e G I), X. reflexivity.
+  - apply (ports_ok_exact p e conns l P); [|exact C]. rewrite (C15_ports_match k p g e G I), X. reflexivity.
+Qed.
+Print Assumptions C15_swapped_instance_valid.
+
+(* ================================================================ 9. default sizes, device names *)
+Theorem C15_defaults_total k g e : In e (table k g) -> default_size k (snd e) <> None.
+Proof. intros I. pose proof (defaults_checked k g e I) as C. unfold defaults_check in C. destruct (default_size k (snd e)); [discriminate|discriminate C]. Qed.
+Print Assumptions C15_defaults_total.
+
+(* the tables the walkers index (use_defaults, default_prec_res_L) have the device, and the device takes the parameter
+   class the walker constructs *)
+Theorem C15_walker_lookups_total k g e : In e (table k g) -> entry_ok k g e = true.
+Proof. apply entries_ok. Qed.
+Print Assumptions C15_walker_lookups_total.
+
+(* every device name is a netlist identifier and no device repeats a port name *)
+Theorem C15_device_names_ok k g e : In e (table k g) -> ident_ok (dev_name (snd e)) = true /\ nodupb (dev_ports (snd e)) = true.
+Proof. intros I. pose proof (devices_checked k g e I) as C. unfold device_check in C. apply andb_true_iff in C. exact C. Qed.
+Print Assumptions C15_device_names_ok.
+
+(* ================================================================ non-vacuity *)
+Definition prm0 : pparams :=
+  {| pm_model := None; pm_tp := "MosType.NMOS"; pm_fam := "MosFamily.NONE"; pm_vth := "MosVth.STD";
+     pm_w := None; pm_l := None; pm_nf := None; pm_mult := None |}.
+Definition prm_model (m : string) : pparams :=
+  {| pm_model := Some m; pm_tp := "MosType.NMOS"; pm_fam := "MosFamily.NONE"; pm_vth := "MosVth.STD";
+     pm_w := Some (PNum 3 2000000); pm_l := None; pm_nf := None; pm_mult := Some (PNum 2 1) |}.
+Definition prm_triple (tp fam vth : string) : pparams :=
+  {| pm_model := None; pm_tp := tp; pm_fam := fam; pm_vth := vth; pm_w := None; pm_l := None; pm_nf := None; pm_mult := None |}.
+
+(* a hierarchy with a shared sub-module, a repeated request, an unmapped primitive and an external call *)
+Definition ex_inner : module :=
+  Mod "Inner" (ICons "m0" [("d", "a"); ("g", "b"); ("s", "c"); ("b", "c")] (TPrim Mos (prm_model "NMOS_1p8V_STD"))
+              (ICons "r0" [("p", "a"); ("n", "b")] (TPrim (POther "IdealResistor") prm0)
+              (ICons "x0" [("a", "a")] (TExt "Ext") INil))).
+Definition ex_top : module :=
+  Mod "Top" (ICons "i0" [("a", "x"); ("b", "y"); ("c", "z")] (TMod ex_inner)
+            (ICons "i1" [("a", "y"); ("b", "x"); ("c", "z")] (TMod ex_inner)
+            (ICons "m1" [("d", "x"); ("g", "y"); ("s", "z"); ("b", "z")] (TPrim Mos (prm_triple "MosType.PMOS" "MosFamily.CORE" "MosVth.LOW"))
+            INil))).
+
+Example C15_ex_compile :
+  match compile Sky130 st0 ex_top with
+  | SOk (m', st') =>
+    List.length (swaps_m Sky130 ex_top m') = 3%nat /\                      (* three swapped positions ... *)
+    List.length (cache st') = 2%nat /\                                      (* ... two distinct requests: two calls *)
+    ng_m Sky130 ex_top = false /\ ng_m Sky130 m' = true /\
+    names_conns (insts_m m') = names_conns (insts_m ex_top) /\ List.length (insts_m m') = 9%nat /\
+    compile Sky130 st' m' = SOk (m', st')
+  | SErr _ => False
+  end.
+Proof. vm_compute. repeat split. Qed.
+
+(* the selection outcomes the theorems distinguish *)
+Example C15_ex_select :
+  (exists f, conv_g Gf180 GMos (prm_triple "MosType.NMOS" "MosFamily.CORE" "MosVth.STD")
+             = SOk (("nfet_03v3", ["d"; "g"; "s"; "b"], "MosParams"), f)) /\
+  conv_g Gf180 GMos (prm_triple "MosType.NMOS" "MosFamily.NONE" "MosVth.STD") = SErr EAmbiguous /\
+  conv_g Gf180 GMos (prm_triple "MosType.NMOS" "MosFamily.CORE" "MosVth.HIGH") = SErr ENoDevice /\
+  conv_g Sky130 GMos (prm_triple "MosType.NMOS" "MosFamily.CORE" "MosVth.HIGH") = SErr ENoDevice /\
+  conv_g Sky130 GRes (prm_model "NO_SUCH") = SErr ENoDevice /\
+  conv_g Sky130 GCap {| pm_model := Some "MIM_M3"; pm_tp := ""; pm_fam := ""; pm_vth := ""; pm_w := None; pm_l := None;
+                        pm_nf := None; pm_mult := Some (PStr "two") |} = SErr EBadParam /\
+  prm_wf Sky130 GMos (prm_model "NMOS_1p8V_STD") = true /\ prm_wf Gf180 GDiode prm0 = true /\
+  List.length (candidates Gf180 GMos (prm_triple "MosType.NMOS" "MosFamily.NONE" "MosVth.STD")) = 2%nat /\
+  List.length (candidates Sky130 GMos (prm_triple "MosType.PMOS" "MosFamily.CORE" "MosVth.LOW")) = 1%nat.
+Proof. split; [eexists; vm_compute; reflexivity|]. vm_compute. repeat split. Qed.
+
+(* the registry: the pinned-tree witness history (compile by module first), then by name and by default *)
+Example C15_ex_registry :
+  let info : minfo := fun m => if (m =? 0)%N then ("pdk_a", true) else if (m =? 1)%N then ("pdk_b", true) else ("bad", false) in
+  fst (rrun info r0 [OCompileMod 0; OCompileName "pdk_a"; OCompileDefault; OCompileMod 1; OCompileDefault; OCompileMod 2;
+                     OSetDefaultMod 1; OCompileDefault; OCompileName "nope"])
+  = [ROk (Some 0%N); ROk (Some 0%N); ROk (Some 0%N); ROk (Some 1%N); RRej; RRej; ROk None; ROk (Some 1%N); RRej] /\
+  r_mods (rstate info [OCompileMod 0]) = [0%N].
+Proof. vm_compute. split; reflexivity. Qed.
+
+(* the exception list is exact in both directions on concrete entries *)
+Example C15_ex_ports :
+  is_exc ports_exceptions Sky130 Mos "NMOS_ISO_20p0V" = true /\ is_exc ports_exceptions Sky130 Mos "NMOS_20p0V_STD" = false /\
+  is_exc ports_exceptions Sky130 TRes "GEN_ND" = false /\ is_exc ports_exceptions Sky130 PRes "GEN_ND" = true /\
+  conns_exact ["d"; "g"; "s"; "b"] [("d", "x"); ("g", "y"); ("s", "z"); ("b", "z")] = true /\
+  conns_exact ["g"; "d"; "s"; "b"; "sub"] [("d", "x"); ("g", "y"); ("s", "z"); ("b", "z")] = false.
+Proof. vm_compute. repeat split. Qed.
